@@ -20,7 +20,7 @@ RULE = ("accepted counts {none, 0, 1, 2, 3, unlimited} x greedy on/off x all vec
 
 CONFIGS = [(None, False), (0, False), (1, False), (1, True), (2, False), (2, True), (3, False), (3, True),
            ("inf", False), ("inf", True)]
-PRE = [b"p", b"", b"a=b", b"--opt=v", b"--opt", b"-t", b"--tog", b"--", b"--nope"]
+PRE = [b"p", b"", b"a=b", b"--opt=v", b"--opt", b"-t", b"--tog", b"--", b"--nope", b"=x"]
 POST = [b"-", b"---x", b"-=x", b"--", b"--opt", b"--opt=w", b"-t", b"--nope", b"-z", b"\xff\xfe", b"--=",
         b"-tz", b"p2", b"", b"--no-tog", b"-" * 70]
 
@@ -56,8 +56,8 @@ def gen(tier, seed, chunk, nch):
         pre = []
         npos = 0
         for _ in range(rng.randint(0, 4)):
-            t = rng.choice(PRE[:7] + PRE[8:])
-            if t in (b"p", b"", b"a=b"):
+            t = rng.choice(PRE[:7] + PRE[8:] + [b"=", b"==a", b"=-t", b"\xff=", b" "])
+            if not t.startswith(b"-"):
                 if npos >= want:
                     continue
                 npos += 1
